@@ -69,8 +69,10 @@ LBF = LBM * G0
 E_CHARGE = Fr("1.602176634") / Fr(10) ** 19
 AVOGADRO = Fr("6.02214076") * Fr(10) ** 23
 
-PREFIX = {"n": Fr(1, 10 ** 9), "μ": Fr(1, 10 ** 6), "u": Fr(1, 10 ** 6), "m": Fr(1, 1000), "c": Fr(1, 100),
-          "d": Fr(1, 10), "k": Fr(1000), "M": Fr(10 ** 6), "G": Fr(10 ** 9), "T": Fr(10 ** 12), "P": Fr(10 ** 15)}
+PREFIX = {"f": Fr(1, 10 ** 15), "p": Fr(1, 10 ** 12), "n": Fr(1, 10 ** 9), "μ": Fr(1, 10 ** 6), "u": Fr(1, 10 ** 6),
+          "m": Fr(1, 1000), "c": Fr(1, 100), "d": Fr(1, 10), "da": Fr(10), "h": Fr(100), "k": Fr(1000), "M": Fr(10 ** 6),
+          "G": Fr(10 ** 9), "T": Fr(10 ** 12), "P": Fr(10 ** 15), "E": Fr(10 ** 18)}
+ALL_SI = "f p n μ u m c d da h k M G T P E"
 WORD_PREFIX = {"nano": "n", "micro": "μ", "milli": "m", "centi": "c", "deci": "d", "kilo": "k", "mega": "M",
                "giga": "G", "tera": "T", "peta": "P"}
 
@@ -83,7 +85,7 @@ def prefixed(base_names, mag, dims, prefixes):
 
 
 # length
-prefixed("m", 1, dim(L=1), "n μ u m c d k")
+prefixed("m", 1, dim(L=1), "f p n μ u m c d da h k M G")
 atom("metre metres meter meters", 1, dim(L=1))
 for _w, _p in (("nano", "n"), ("micro", "μ"), ("Micro", "μ"), ("milli", "m"), ("centi", "c"), ("deci", "d"), ("kilo", "k")):
     atom(" ".join(_w + x for x in ("metre", "metres", "meter", "meters")), PREFIX[_p], dim(L=1))
@@ -97,12 +99,12 @@ atom("in inch inches", IN, dim(L=1))
 atom("mil mils thou thous thousandth thousandths milin milliinch milliinches millinch", IN / 1000, dim(L=1))
 atom("μin uin microinch microinches", IN / 10 ** 6, dim(L=1))
 # mass
-prefixed("g", Fr(1, 1000), dim(M=1), "n μ u m k")
+prefixed("g", Fr(1, 1000), dim(M=1), "p n μ u m c d k M")
 atom("slug slugs", LBF / FT, dim(M=1))
 atom("slinch slinches", LBF / IN, dim(M=1))
 atom("lbm", LBM, dim(M=1))
 # time
-prefixed("s", 1, dim(T=1), "n μ u m")
+prefixed("s", 1, dim(T=1), "f p n μ u m k M")
 atom("second seconds sec", 1, dim(T=1))
 atom("nanosecond nanoseconds", Fr(1, 10 ** 9), dim(T=1))
 atom("microsecond microseconds", Fr(1, 10 ** 6), dim(T=1))
@@ -123,36 +125,36 @@ atom("°C degC C", 1, dim(TH=1), scale=Fr("273.15"))
 atom("°R degR R", Fr(5, 9), dim(TH=1), scale=Fr(0))
 atom("°F degF F", Fr(5, 9), dim(TH=1), scale=Fr("459.67") * Fr(5, 9))
 # force, pressure, energy, power
-prefixed("N", 1, dim(M=1, L=1, T=-2), "n μ u m k M G")
+prefixed("N", 1, dim(M=1, L=1, T=-2), ALL_SI)
 atom("dyn", Fr(1, 10 ** 5), dim(M=1, L=1, T=-2))
 atom("lbf lb", LBF, dim(M=1, L=1, T=-2))
 atom("lb", LBM, dim(M=1))
-prefixed("Pa", 1, dim(M=1, L=-1, T=-2), "k M G")
+prefixed("Pa", 1, dim(M=1, L=-1, T=-2), ALL_SI)
 atom("bar", 10 ** 5, dim(M=1, L=-1, T=-2))
 atom("atm atmosphere atmospheres", 101325, dim(M=1, L=-1, T=-2))
 atom("psi", LBF / IN ** 2, dim(M=1, L=-1, T=-2))
 atom("psf", LBF / FT ** 2, dim(M=1, L=-1, T=-2))
 atom("P poise", Fr(1, 10), dim(M=1, L=-1, T=-1))
-prefixed("J", 1, dim(M=1, L=2, T=-2), "n μ u m k M G")
-prefixed("cal", Fr("4.184"), dim(M=1, L=2, T=-2), "n μ u m k M G")
+prefixed("J", 1, dim(M=1, L=2, T=-2), ALL_SI)
+prefixed("cal", Fr("4.184"), dim(M=1, L=2, T=-2), ALL_SI)
 atom("Cal", Fr("4184"), dim(M=1, L=2, T=-2))
-prefixed("eV", E_CHARGE, dim(M=1, L=2, T=-2), "n μ u m k M G")
+prefixed("eV", E_CHARGE, dim(M=1, L=2, T=-2), ALL_SI)
 atom("BTU btu Btu", Fr("1055.05585262"), dim(M=1, L=2, T=-2))
-prefixed("W", 1, dim(M=1, L=2, T=-3), "n μ u m k M G")
+prefixed("W", 1, dim(M=1, L=2, T=-3), ALL_SI)
 # area, volume
 atom("ha hectare hectares", 10 ** 4, dim(L=2))
 atom("ac acre acres", Fr("1609.344") ** 2 / 640, dim(L=2))
 atom("L l litre litres liter liters", Fr(1, 1000), dim(L=3))
 atom("mL ml millilitre millilitres milliliter milliliters", Fr(1, 10 ** 6), dim(L=3))
 # frequency, speed
-prefixed("Hz", 1, dim(T=-1), "k M G")
+prefixed("Hz", 1, dim(T=-1), ALL_SI)
 atom("kn knot knots", Fr(1852, 3600), dim(L=1, T=-1))
 # substance amount
-prefixed("mol", 1, dim(N=1), "k M G m")
+prefixed("mol", 1, dim(N=1), ALL_SI)
 atom("particles particle", 1 / AVOGADRO, dim(N=1))
 # electricity
-prefixed("A", 1, dim(I=1), "n μ u m k M G T")
-prefixed("C", 1, dim(I=1, T=1), "n μ u m k M G T")
+prefixed("A", 1, dim(I=1), ALL_SI)
+prefixed("C", 1, dim(I=1, T=1), ALL_SI)
 atom("e", E_CHARGE, dim(I=1, T=1))
 # memory (dimensionless in this library)
 atom("b bit bits", 1, D0)
